@@ -1074,6 +1074,7 @@ Variable coerce : text -> V.
 Variable is_none : V -> bool.
 Notation load_at := (load_config_at_path V coerce).
 Notation file_config := (file_config V coerce is_none).
+Notation inline_config := (inline_config V coerce is_none).
 Notation run := (run V coerce is_none).
 Notation run_c := (run_c V coerce is_none).
 Notation file_config_c := (file_config_c V coerce is_none).
@@ -1088,18 +1089,18 @@ Lemma configs_or_empty_wf c : wfd c -> wfd (configs_or_empty V c).
 Proof. intros H. destruct c as [|a l]; [|exact H]. apply single_wf. apply wfd_nil. Qed.
 
 (* PRECEDENCE *)
-Theorem precedence f e rt rq sf E :
+Lemma precedence_inline f e rt sf E :
   fs_wf f -> wfd (r_defaults V rt) -> wfd (r_overrides V rt) ->
-  file_config f e rt rq sf = Ok E ->
+  inline_config f e rt sf = Ok E ->
   exists configs,
     load_config_up_to_path V coerce f e (fst sf) (r_extra V rt) (r_ignore_local V rt) = Ok configs /\
     forall p, p <> [] -> kind_at p E = spec_kind V coerce f e rt sf (is_nil configs) p.
 Proof.
-  intros Hf Hd Ho H. unfold Config.file_config, from_path in H.
+  intros Hf Hd Ho H. unfold Config.inline_config, from_path in H.
   destruct (load_config_up_to_path V coerce f e (fst sf) (r_extra V rt) (r_ignore_local V rt)) as [configs|e0] eqn:Eu;
     [|discriminate]. cbn [bind] in H.
   destruct (fluff_init V (r_defaults V rt) configs (r_overrides V rt)) as [c0|e0] eqn:Ei; [|discriminate]. cbn [bind] in H.
-  destruct (dialect_check V is_none rq c0) as [[]|e0]; [|discriminate]. cbn [bind] in H.
+  destruct (dialect_check V is_none false c0) as [[]|e0]; [|discriminate]. cbn [bind] in H.
   exists configs. split; [reflexivity|]. intros p Hp.
   rewrite (process_raw_kind coerce (snd sf) c0 E p Hp H). unfold spec_kind. f_equal.
   destruct (up_to_kind coerce f e (fst sf) (r_extra V rt) (r_ignore_local V rt) configs Hf Eu) as [Hwc Hkc].
@@ -1113,6 +1114,53 @@ Proof.
   - cbn [is_nil configs_or_empty]. rewrite Hkc. cbn [Config.last_some].
     destruct (kind_at p (core_wrap V (r_overrides V rt))); [reflexivity|].
     destruct (last_some (map (okind V p) _)); reflexivity.
+Qed.
+
+Lemma file_config_inline f e rt sf E : file_config f e rt sf = Ok E -> inline_config f e rt sf = Ok E.
+Proof.
+  unfold Config.file_config. destruct (inline_config f e rt sf) as [c|e0]; [|discriminate]. cbn [bind].
+  destruct (verify_dialect V is_none c) as [[]|e0]; [|discriminate]. cbn [bind]. exact (fun H => H).
+Qed.
+
+Theorem precedence f e rt sf E :
+  fs_wf f -> wfd (r_defaults V rt) -> wfd (r_overrides V rt) ->
+  file_config f e rt sf = Ok E ->
+  exists configs,
+    load_config_up_to_path V coerce f e (fst sf) (r_extra V rt) (r_ignore_local V rt) = Ok configs /\
+    forall p, p <> [] -> kind_at p E = spec_kind V coerce f e rt sf (is_nil configs) p.
+Proof. intros Hf Hd Ho H. apply precedence_inline; try assumption. apply file_config_inline. exact H. Qed.
+
+(* the dialect requirement, in terms of what is observed at core:dialect *)
+Lemma verify_dialect_ok c :
+  verify_dialect V is_none c = if dialect_ok V is_none (kind_at [core; dialect_key] c) then Ok tt else Err ERuntime.
+Proof.
+  unfold verify_dialect, Config.kind_at. destruct (lookup [core; dialect_key] c) as [[v|l]|]; cbn [option_map Config.kind_of dialect_ok];
+    [destruct (is_none v)|..]; reflexivity.
+Qed.
+
+(* the repaired load_raw_file_and_config: the file is accepted exactly when its EFFECTIVE config (inline directives included)
+   has a dialect *)
+Theorem dialect_after_inline f e rt sf E :
+  fs_wf f -> wfd (r_defaults V rt) -> wfd (r_overrides V rt) ->
+  inline_config f e rt sf = Ok E ->
+  exists configs,
+    load_config_up_to_path V coerce f e (fst sf) (r_extra V rt) (r_ignore_local V rt) = Ok configs /\
+    file_config f e rt sf =
+      if dialect_ok V is_none (spec_kind V coerce f e rt sf (is_nil configs) [core; dialect_key]) then Ok E else Err ERuntime.
+Proof.
+  intros Hf Hd Ho H. destruct (precedence_inline f e rt sf E Hf Hd Ho H) as (configs & Hu & Hk).
+  exists configs. split; [exact Hu|]. unfold Config.file_config. rewrite H. cbn [bind].
+  rewrite verify_dialect_ok, (Hk [core; dialect_key]) by discriminate.
+  destruct (dialect_ok V is_none _); reflexivity.
+Qed.
+
+(* path and string pipelines agree: linting the file by path = building the file's base config (no dialect demanded yet) and
+   linting its text as a string on it *)
+Theorem path_is_string_pipeline f e rt sf :
+  file_config f e rt sf = do base <- from_path V coerce is_none f e rt false (fst sf); string_lint_config V coerce is_none base (snd sf).
+Proof.
+  unfold Config.file_config, Config.inline_config, string_lint_config, string_config.
+  destruct (from_path V coerce is_none f e rt false (fst sf)); reflexivity.
 Qed.
 
 (* ISOLATION: the config of a file is determined by the directories it is read from (and its own text) *)
@@ -1137,11 +1185,11 @@ Qed.
 Lemma In_tl {A} (x : A) l : In x (tl l) -> In x l.
 Proof. destruct l; [intros [] | intros H; right; exact H]. Qed.
 
-Theorem isolation f f' e rt rq sf :
+Theorem isolation f f' e rt sf :
   (forall q, In q (relevant V f e (r_extra V rt) (fst sf)) -> assoc_path q f = assoc_path q f') ->
-  file_config f e rt rq sf = file_config f' e rt rq sf.
+  file_config f e rt sf = file_config f' e rt sf.
 Proof.
-  intros Hag. unfold Config.file_config, from_path. f_equal. f_equal.
+  intros Hag. unfold Config.file_config, Config.inline_config, from_path. f_equal. f_equal. f_equal.
   unfold relevant in Hag.
   set (cross := cross_dir e) in *.
   set (I1 := iter_intermediate_paths V f (fst sf) (e_home e)) in *.
@@ -1182,7 +1230,7 @@ Qed.
 
 (* a run is file-by-file: the result for a file does not depend on which other files are linted, or in what order *)
 Lemma run_nth f e rt files i :
-  nth_error (run f e rt files) i = option_map (file_config f e rt true) (nth_error files i).
+  nth_error (run f e rt files) i = option_map (file_config f e rt) (nth_error files i).
 Proof. unfold Config.run. apply nth_error_map. Qed.
 
 Lemma run_app f e rt l1 l2 : run f e rt (l1 ++ l2) = run f e rt l1 ++ run f e rt l2.
@@ -1319,14 +1367,16 @@ Proof.
 Qed.
 
 Lemma file_config_c_ok f e rt sf c : cache_ok f c ->
-  exists c', file_config_c f e rt sf c = (file_config f e rt true sf, c') /\ cache_ok f c'.
+  exists c', file_config_c f e rt sf c = (file_config f e rt sf, c') /\ cache_ok f c'.
 Proof.
-  intros Hc. unfold Config.file_config_c, Config.file_config, from_path.
+  intros Hc. unfold Config.file_config_c, Config.file_config, Config.inline_config, from_path.
   destruct (up_to_c_ok f e (fst sf) (r_extra V rt) (r_ignore_local V rt) c Hc) as (c1 & H1 & Hc1).
   unfold mbind. rewrite H1.
   destruct (load_config_up_to_path V coerce f e (fst sf) (r_extra V rt) (r_ignore_local V rt)) as [configs|e0]; cbn [bind].
   - unfold mlift. exists c1. split; [|exact Hc1]. destruct (fluff_init V _ configs _) as [c0|e0]; [|reflexivity]. cbn [bind].
-    destruct (dialect_check V is_none true c0) as [[]|e0]; reflexivity.
+    destruct (dialect_check V is_none false c0) as [[]|e0]; [|reflexivity]. cbn [bind].
+    destruct (process_raw_file_for_config V coerce c0 (snd sf)) as [c2|e0]; [|reflexivity]. cbn [bind].
+    destruct (verify_dialect V is_none c2) as [[]|e0]; reflexivity.
   - exists c1. split; [reflexivity | exact Hc1].
 Qed.
 
